@@ -404,7 +404,14 @@ class StmtMixin(CallMixin):
                                % (k, node.lineno, self.c.qual))
         if spec.header is not None:
             hdr = self.module.segment(node).split("\n")[0].strip().rstrip(":")
-            if " ".join(spec.header.split()) != " ".join(hdr.split()):
+            want, have = " ".join(spec.header.split()), " ".join(hdr.split())
+            # a header ending in " in *" binds the loop by its targets only: the invariants then have to hold
+            # whatever the iterated expression is (its value is still evaluated from the real code)
+            if want.endswith(" in *"):
+                ok = have.startswith(want[:-1])
+            else:
+                ok = want == have
+            if not ok:
                 raise BindingError("loop #%d of %s: contract header %r does not match code %r"
                                    % (k, self.c.qual, spec.header, hdr))
         return spec
